@@ -4,3 +4,8 @@ claim("C03",
   "Bounded: graphs beyond the sizes above are not explored. Budget is calibrated from the implementation. Reset hook (generated overlay) gives each case pristine package state and is validated against fresh processes each run; violations are confirmed twice in fresh processes.",
   "stateless bounded-exhaustive exploration (choice-tree DFS, full product + deviation bound) of the real implementation against a reference model",
   "DESIGN.md 4/C03")
+claim("C04",
+  "Every abstract call model within the bounds of C03 (all digraphs on <=3/4 nodes x distribution x target, 2-node multigraphs with multiplicity <=3 and quote/unresolved/external/overload options, sparse 5-node multigraphs within 3/4 deviations) is run through the real RCallGraph.Analysis; the map handed to the callback must be the exact inverse (multiset, once per call site, declared keys only) of the reference relation, the DOT must be well-formed (strict reader + gographviz), every edge must come from the map and lie on a caller chain ending at the target, every direct caller must be present.",
+  "Bounded graph sizes; termination is observed per case with a 120 s watchdog and 600 s fresh-process confirmation, not proven. Reset hook validated against fresh processes each run.",
+  "stateless bounded-exhaustive exploration (full product + deviation bound) of the real implementation against a reference inverse-relation model",
+  "DESIGN.md 4/C04")
